@@ -40,6 +40,22 @@ def applyEvents (o : RxOut) : List (Ev Pkg) → RxOut
     applyEvents { o with hooks := o.hooks ++ [s!"n{i}@{o.delivered.length}:{t}:{toHex old}:{toHex new}:{o.psize}"] } rest
   | .packSize n :: rest => applyEvents { o with psize := n } rest
 
+/-- packet tokens `b<status>:<hex>`: the status byte of the packet header as a number (b0, b1, b3 = EOM|ATTNACK,
+b9 = EOM|EVENT, …) -/
+def bodyTokStatus (b : String) : Option Nat :=
+  if b.startsWith "b" then (b.drop 1).toNat? else none
+
+def isBodyTok (b : String) : Bool :=
+  match bodyTokStatus b with
+  | some n => n < 256
+  | none => false
+
+/-- `AddPacket`: `Status&TDS_BUFSTAT_EOM == TDS_BUFSTAT_EOM` — the lowest bit, whatever else is set -/
+def bodyTokEOM (b : String) : Bool :=
+  match bodyTokStatus b with
+  | some n => n % 2 == 1
+  | none => false
+
 def runPackets : Rx Pkg → RxOut → List String → Option (Rx Pkg × RxOut)
   | rx, o, [] => some (rx, o)
   | rx, o, t :: ts =>
@@ -55,8 +71,8 @@ def runPackets : Rx Pkg → RxOut → List String → Option (Rx Pkg × RxOut)
     | [b, hex] =>
       match fromHex hex with
       | some body =>
-        if b == "b0" ∨ b == "b1" then
-          match rx.writeBody ops body (b == "b1") with
+        if isBodyTok b then
+          match rx.writeBody ops body (bodyTokEOM b) with
           | some (rx', ev) => runPackets rx' (applyEvents o ev) ts
           | none => none
         else none
